@@ -228,6 +228,55 @@ struct Pipe {
 
 const CONSUMERS: [&[&str]; 3] = [&["view", "--precision", "6"], &["fold", "--fill", "zero"], &["stat", "-s", "sum", "--precision", "6"]];
 
+/// Every sequence of up to three setter calls on the write builder: what is written depends on the
+/// last format and the last precision set, not on the order or number of calls.
+fn check_builder_histories(x: &RefArray) -> (u64, Vec<Viol>) {
+    #[derive(Clone, Copy, Debug, PartialEq)]
+    enum Set {
+        Text,
+        Npy,
+        P2,
+        P9,
+    }
+    let alphabet = [Set::Text, Set::Npy, Set::P2, Set::P9];
+    let scs = scs_from_ref(x);
+    let mut viols = Vec::new();
+    let mut n = 0u64;
+    for hist in crate::enumerate::sequences(alphabet.len(), 0, 3) {
+        n += 1;
+        let hist: Vec<Set> = hist.into_iter().map(|i| alphabet[i]).collect();
+        let format = hist.iter().rev().find_map(|h| match h { Set::Text => Some(Format::Text), Set::Npy => Some(Format::Npy), _ => None }).unwrap_or(Format::Text);
+        let precision = hist.iter().rev().find_map(|h| match h { Set::P2 => Some(2usize), Set::P9 => Some(9), _ => None }).unwrap_or(6);
+        let got = catch(|| {
+            let mut b = write::Builder::default();
+            for h in &hist {
+                b = match h {
+                    Set::Text => b.set_format(Format::Text),
+                    Set::Npy => b.set_format(Format::Npy),
+                    Set::P2 => b.set_precision(2),
+                    Set::P9 => b.set_precision(9),
+                };
+            }
+            let mut out = Vec::new();
+            b.write(&mut out, &scs).map(|_| out).map_err(|e| e.to_string())
+        });
+        // the canonical call order of the binary: precision first, then format
+        let expect = catch(|| {
+            let mut out = Vec::new();
+            write::Builder::default().set_precision(precision).set_format(format).write(&mut out, &scs).map(|_| out).map_err(|e| e.to_string())
+        });
+        let ok = matches!((&got, &expect), (Ok(Ok(a)), Ok(Ok(b))) if a == b);
+        if !ok && viols.len() < 4 {
+            viols.push((
+                "C07|lib|write-builder-history".to_string(),
+                format!("write::Builder with setter calls {hist:?} on shape {:?} writes {:?}; the last format is {} and the last precision {precision}, which written directly gives {:?}", x.shape, got.as_ref().map(|r| r.as_ref().map(|b| String::from_utf8_lossy(&b[..b.len().min(120)]).to_string())), if matches!(format, Format::Npy) { "npy" } else { "text" }, expect.as_ref().map(|r| r.as_ref().map(|b| String::from_utf8_lossy(&b[..b.len().min(120)]).to_string()))),
+                J::obj([("kind", J::s("c07-builder")), ("shape", J::usizes(&x.shape)), ("history", J::s(format!("{hist:?}")))]),
+            ));
+        }
+    }
+    (n, viols)
+}
+
 fn l2_spectra() -> Vec<RefArray> {
     vec![
         RefArray::from_fn(&[5], |f, _| f as f64 * 1.5 + 0.25),
@@ -236,6 +285,13 @@ fn l2_spectra() -> Vec<RefArray> {
         RefArray::from_fn(&[3, 3, 3, 2], |f, _| (f % 7) as f64),
         RefArray::from_fn(&[1], |_, _| 4.0),
         RefArray::from_fn(&[2, 1, 2, 1, 3], |f, _| f as f64),
+        // tiny positive values whose most significant byte - the last byte of a little-endian npy
+        // file - is an ASCII whitespace byte (space, tab, LF, FF, CR); as text they are zeros
+        RefArray { shape: vec![3], data: vec![2.0, 1.0, f64::from_bits(0x2000_0000_0000_0001)] },
+        RefArray { shape: vec![2, 2], data: vec![2.0, 1.0, 3.0, f64::from_bits(0x0900_0000_0000_0000)] },
+        RefArray { shape: vec![3], data: vec![f64::from_bits(0x0a00_0000_0000_0000), 1.0, f64::from_bits(0x0a0a_0a0a_0a0a_0a0a)] },
+        RefArray { shape: vec![3], data: vec![2.0, 1.0, f64::from_bits(0x0c00_0000_0000_0000)] },
+        RefArray { shape: vec![3], data: vec![2.0, 1.0, f64::from_bits(0x0d0a_0d0a_0d0a_0d0a)] },
     ]
 }
 
@@ -617,6 +673,26 @@ pub fn run(tier: Tier) -> i32 {
         ("expected", J::s("consumer exits 0 with auto-detected format and reproduces the folded values")),
     ]));
 
+    // setter histories of the write builder
+    {
+        let mut n = 0u64;
+        for x in [RefArray::from_fn(&[2, 3], |f, _| f as f64 + 0.123456789012), RefArray::from_fn(&[4], |f, _| (f * f) as f64 + 0.5)] {
+            let (e, v) = check_builder_histories(&x);
+            n += e;
+            for (k, w, j) in v {
+                rep.violation(k, w, j);
+            }
+        }
+        rep.transitions += 3 * n;
+        rep.part(Part {
+            name: "lib: setter histories of the write builder".into(),
+            evaluations: n,
+            nontrivial: n,
+            note: "every sequence of 0..3 calls of {set_format(Text), set_format(Npy), set_precision(2), set_precision(9)} on two spectra: the bytes written are those of the last format and last precision set".into(),
+            exhaustive: true,
+            extra: vec![],
+        });
+    }
     // size ladder
     let mut ladder: Vec<Vec<usize>> = vec![
         vec![600], vec![30, 40], vec![2, 3, 500], vec![8000], vec![20, 20, 20], vec![100, 100], vec![70000], vec![150000], vec![300, 500],
